@@ -40,7 +40,8 @@ func certificatePrefix(id sdk.Address) []byte {
 }
 
 func certificateSerialFromKey(key []byte) big.Int {
-	if len(key) < keyAddrPrefixLen+1 {
+	// serial number 0 has an empty big-endian encoding: the key is then just the owner prefix
+	if len(key) < keyAddrPrefixLen {
 		panic("invalid key size")
 	}
 
